@@ -49,7 +49,7 @@ def make_text(rng, cls, i):
     if cls == "ascii":
         return base + rng.choice(["", " event", " A-b_c", " 100%", " x^2 ~ y", "  two  spaces ", " trailing ", "\ttab", " line one \nline two", " a\t\nb"])
     if cls == "xml":
-        return base + rng.choice([" <b>&amp;</b>", " a<b & c>d", ' "q" \'s\'', " ]]> <!-- x -->", " &lt;"])
+        return base + rng.choice([" <b>&amp;</b>", " a<b & c>d", ' "q" \'s\'', " ]]> <!-- x -->", " &lt;", " see <ID> and <TEXT>", ' say "hi" twice "ok"'])
     if cls == "accent":
         return base + rng.choice([" café", " Ångström", " naïve façade", " é", " Crème brûlée ñ", " Dvořák", " Vie\u0323\u0302t Nam", " a\u0301\u0308 o\u0302\u0301",
                                   " e\u0301 (decomposed)", " \u1ec7 \u01d8"])
@@ -78,7 +78,7 @@ def gen_times(rng, kind, n):
         if model == "tiny":
             return [rng.uniform(0, 1e-3) for _ in range(n)]
         return [rng.uniform(1e6, 1e9) for _ in range(n)]
-    span_s = rng.choice([0.001, 0.008, 0.05, 1, 60, 3600, 86400, 7 * 86400, 30 * 86400, 365 * 86400, 20 * 365 * 86400, 300 * 365 * 86400])
+    span_s = rng.choice([0.001, 0.008, 0.05, 1, 60, 3600, 86400, 7 * 86400, 30 * 86400, 365 * 86400, 3 * 365 * 86400, 7 * 365 * 86400, 20 * 365 * 86400, 300 * 365 * 86400])
     anchor = rng.choice([
         dt.datetime(rng.randrange(1905, 2100), rng.randrange(1, 13), rng.randrange(1, 29), rng.randrange(24), rng.randrange(60), rng.randrange(60)),
         dt.datetime(2020, 2, 27, 22), dt.datetime(1999, 12, 30, 12), dt.datetime(1970, 1, 1), dt.datetime(1969, 12, 31, 23, 59, 59), dt.datetime(2021, 1, 29, 6), dt.datetime(2021, 3, 30), dt.datetime(2024, 2, 28, 23, 59),
